@@ -27,10 +27,10 @@ fn extract_fn(src: &str, name: &str) -> String {
 }
 
 fn main() {
-    let repo = env::var("VERIF_REPO").unwrap_or_else(|_| "/repo".to_string());
+    // the crate under verification is reached through the symlink `harness/repo` (-> /repo)
+    let repo = format!("{}/repo", env::var("CARGO_MANIFEST_DIR").unwrap());
     let lib = format!("{repo}/src/lib.rs");
     println!("cargo:rerun-if-changed={lib}");
-    println!("cargo:rerun-if-env-changed=VERIF_REPO");
     let src = fs::read_to_string(&lib).unwrap();
     let mut out = String::from("// extracted verbatim from src/lib.rs by build.rs\nuse core::num::NonZeroUsize;\n");
     for name in ["up_align_usize_unchecked", "down_align_usize", "bump_down", "min_non_zero_cap", "align_pos"] {
